@@ -267,7 +267,9 @@ def chk_C04(cfg, v, toks, seg):
 def latency_ok(cfg, n, t, r):
     mn, mx, ms, imin, ims, mode = cfg
     s, e, d = t
-    return (len(d) == mx and r == e + 1) or (e + 2 <= r <= e + max(0, ms) + 2 and r <= n) or r == n + 1
+    # handed over on the frame that completes max_length / on the silent frame that exceeds the tolerance / at end of stream, the
+    # latter only when neither had happened before the stream ended (at most max_silence frames after the token, token shorter than max_length)
+    return (len(d) == mx and r == e + 1) or (e + 2 <= r <= e + max(0, ms) + 2 and r <= n) or (r == n + 1 and e + max(0, ms) + 1 >= n and len(d) < mx)
 
 
 # ------------------------------------------------------------------ correspondence worker
